@@ -835,9 +835,11 @@ class Interp:
         if isinstance(base, SSeq):
             return BoundLib('seq.' + attr, base)
         if isinstance(base, ClassRef):
-            fi = self.sources.function(base.module, f'{base.name}.{attr}')
-            if fi is not None:
-                return FuncRef(base.module, f'{base.name}.{attr}', bound_self=base if fi.is_classmethod else None)
+            for cmod, cname in (self.unit.class_chain(base.name) or [(base.module, base.name)]):
+                fi = self.sources.function(cmod, f'{cname}.{attr}')
+                if fi is not None:
+                    return FuncRef(cmod, f'{cname}.{attr}', bound_self=base if fi.is_classmethod else None)
+            fi = None
             const = self.sources.class_const(self, base.module, base.name, attr)
             if const is not NotImplemented:
                 return const
